@@ -67,7 +67,9 @@ func (b *backend) create(ctx context.Context, key []byte, value []byte) (revisio
 		return 0, err
 	}
 
-	if bytes.Contains(key, events) {
+	// only Event records (keys under <prefix>/events/) are written with a ttl; a key that merely
+	// contains an "events" path segment (a pod in a namespace called events) is not
+	if bytes.HasPrefix(key, getEventsPrefix(b.config.Prefix)) {
 		err = b.creator.CreateWithTTL(ctx, key, value, revision, eventsTTL)
 	} else {
 		err = b.creator.Create(ctx, key, value, revision)
